@@ -155,6 +155,8 @@ func checkL2First(c *core.Ctx, rule string) {
 
 func runC02(c *core.Ctx) {
 	defer func() {
+		c.Rule("R2.9", "the tiers are wired as the orchestrators assume (first handler constructor = L1, second = L2, in the accept loop and in main for both ports): a swap makes the authoritative tier the one that evicts", 3)
+		runR118(c, "R2.9")
 		c.Share(map[string]string{"R4.11": "R2.8"}, runC04) // an L1 append that changes the flags makes L1 differ from L2
 		c.Share(map[string]string{"R3.1": "R2.7"}, runC03)  // a TTL/value change under the shared lock interleaves with a get's back-fill: L1 keeps what L2 dropped
 	}()
